@@ -1,3 +1,4 @@
+import _overlay
 import threading, time, sys
 from pysph.solver.controller import CommandManager
 class S: 
